@@ -79,6 +79,7 @@ class RealSys:
         self.ck_cfgsaved = False
         self.ck_refit = False
         self.tainted = False
+        self.mixed = False       # a checkpoint was resumed by another sampler class than its writer (outside ConfigNamesWriter)
         self._refs()
 
     def _new(self):
@@ -200,8 +201,10 @@ class RealSys:
                 d0 = getattr(self.a, "_checkpoint_defaults", None)
                 path_on = use_path or bool(d0)
                 save_cfg = True if use_path else (bool(d0["save_config"]) if d0 else False)
-                will_resume_smc = resuming and stype in ("smc", "minipcn_smc")
+                will_resume_smc = resuming and stype in ("smc", "minipcn_smc", "emcee_smc")
                 stale = resuming and pre["fck"]["sampler"] != "none" and pre["fck"]["under"] != pre["flow"]
+                if resuming and path_on and SAMPLER_OF.get(stype, "none") != pre["primed"]["ck"]["sampler"]:
+                    self.mixed = True
                 from_final_other = will_resume_smc and pre["primed"]["ck"]["final"] and pre["primed"]["ck"]["under"] != pre["flow"]
                 try:
                     self.a.sample_posterior(**kw)
@@ -222,10 +225,12 @@ class RealSys:
                 cm.__exit__(None, None, None)
             elif name == "ResumeFromFile":
                 from aspire import Aspire
+                ov = args[0] if args and args[0] != "none" else None
                 new = Aspire.resume_from_file(self.path, log_likelihood=self.f.log_likelihood,
-                                              log_prior=self.f.log_prior)
+                                              log_prior=self.f.log_prior, sampler=ov)
                 self.a = new
                 self.cms = []
+                self.mixed = False
                 self.tainted = bool(before["fck"]["sampler"] != "none"
                                     and SAMPLER_OF.get(before["fcfg"], "none") != before["fck"]["sampler"])
             else:
@@ -266,23 +271,34 @@ class RealSys:
             return "aspire_config" in f and "verif_marker" not in f["aspire_config"].attrs
 
 
-SAMPLER_OF = {"smc": "MiniPCNSMC", "minipcn_smc": "MiniPCNSMC", "importance": "ImportanceSampler"}
+SAMPLER_OF = {"smc": "MiniPCNSMC", "minipcn_smc": "MiniPCNSMC", "importance": "ImportanceSampler", "emcee_smc": "EmceeSMC"}
 
 
-def judge(real, sysm):
-    """FileSelfConsistent evaluated on the real projected state.  -> list of (clause, known_family)"""
+def judge(real, sysm, exp=None):
+    """FileSelfConsistent evaluated on the real projected state.  -> list of (clause, known_family).
+    exp: the specification's state after the same history (None when a stored scenario is replayed).
+    A recorded finding is a behaviour the specification itself exhibits (its ghost-flagged states): a
+    real-state violation is attributed to it only if the specification's state shows the same mismatch;
+    where the specification says the file is consistent, the violation is new."""
     out = []
     ck = real["fck"]
     if ck["sampler"] != "none":
         if real["fflow"] != "none" and real["fflow"] != ck["under"]:
-            out.append(("ProposalMatchesCheckpoint", "refit_then_resume" if sysm.ck_refit else None))
-        if real["fcfg"] != "absent" and sysm.ck_cfgsaved:
+            known = sysm.ck_refit
+            if known and exp is not None:
+                known = bool(exp["fck"].get("refit")) or (exp["fflow"] != "none" and exp["fck"]["sampler"] != "none" and exp["fflow"] != exp["fck"]["under"])
+            out.append(("ProposalMatchesCheckpoint", "refit_then_resume" if known else None))
+        if real["fcfg"] != "absent" and sysm.ck_cfgsaved and not getattr(sysm, "mixed", False):
             names = SAMPLER_OF.get(real["fcfg"], "none")
             if names != ck["sampler"]:
                 # the recorded finding is: fit() rewrites the configuration with the instance's *last sampler
                 # type* (another sampler than the checkpoint's writer).  A configuration that names no
                 # sampler at all next to a checkpoint is a different failure and is not covered by it.
                 known = (sysm.cfg_by == "fit" or sysm.tainted) and names != "none"
+                if known and exp is not None:
+                    m_ck = exp["fck"]
+                    known = (m_ck["sampler"] != "none" and exp["fcfg"] != "absent"
+                             and SAMPLER_OF.get(exp["fcfg"], "none") != m_ck["sampler"])
                 out.append(("ConfigNamesWriter", "fit_config_type" if known else None))
     return out
 
@@ -316,7 +332,7 @@ def replay_edge(job):
             out = sysm.apply(lab)
             res["outcomes"].append(out)
             real = sysm.project()
-            for (clause, fam) in judge(real, sysm):
+            for (clause, fam) in judge(real, sysm, expected_states[i]):
                 res["viol"].append({"clause": clause, "family": fam, "at": i, "labels": labels[: i + 1],
                                     "real": {k: real[k] for k in ("fcfg", "fflow", "fck")}})
             exp = expected_states[i]
